@@ -87,6 +87,7 @@ func applyWorldOverrides(wf *gql.Features, on, off featSet) {
 	set("subscriptions", &wf.Subscriptions)
 	set("value-union", &wf.ValueUnion)
 	set("weird-ids", &wf.WeirdIDs)
+	set("shared-root-name", &wf.SharedRootName)
 }
 
 func applyOpOverrides(of *gql.OpFeatures, on, off featSet) {
